@@ -987,7 +987,6 @@ func paramFromCallers(c *Ctx, fn *ssa.Function, p *ssa.Parameter, depth int, see
 	return true, why
 }
 
-
 // checkARPAddrComplete: EncodeARP copies srcAddr.IP.AsSlice() / dstAddr.IP.AsSlice() into the 4-byte address
 // fields; the zero netip.Addr has an empty slice, so nothing is written and the field keeps whatever the pooled
 // buffer held before. Every packet.Addr that the library builds itself (composite literal) and that flows into an
@@ -1084,11 +1083,10 @@ func checkARPAddrComplete(c *Ctx, fns []*ssa.Function) {
 		}
 		key := strings.TrimSuffix(kg.Key("arp-addr "+core.FuncName(s.fn)+" -> "+s.into), "#0")
 		c.R.Add(core.Obligation{Rule: "arp-addr", Key: key, Func: core.FuncName(s.fn), Pos: c.P.Pos(core.PosOf(s.call.(ssa.Instruction))), Status: st,
-			Basis: fmt.Sprintf("Addr{MAC: %s, IP: %s}", cf["MAC"], cf["IP"]),
+			Basis:  fmt.Sprintf("Addr{MAC: %s, IP: %s}", cf["MAC"], cf["IP"]),
 			Detail: "the address built here for " + s.into + " leaves " + strings.Join(missing, ", ") + " at its zero value: EncodeARP copies an empty slice for it, so the ARP field keeps the previous contents of the pooled buffer instead of the value meant (0.0.0.0 must be written as packet.IPv4zero)"})
 	}
 }
-
 
 // wholeStored: some instruction stores a whole value into the local (as opposed to field-wise initialisation).
 func wholeStored(al *ssa.Alloc) bool {
@@ -1102,7 +1100,6 @@ func wholeStored(al *ssa.Alloc) bool {
 	}
 	return false
 }
-
 
 // checkDHCPInPlace: the DHCP server encodes its reply over the request, and the option values it echoes (client
 // identifier, parameter list) are slices of the request's own options area p[240:]. AppendOptions copies them
@@ -1207,14 +1204,13 @@ func checkDHCPInPlace(c *Ctx) {
 		}
 		key := strings.TrimSuffix(kg.Key("dhcp-inplace EncodeDHCP4 "+what+" "+norm(target)), "#0")
 		c.R.Add(core.Obligation{Rule: "dhcp-inplace", Key: key, Func: core.FuncName(fn), Pos: c.P.Pos(core.PosOf(i)), Status: st,
-			Basis: "after AppendOptions has read the option values",
+			Basis:  "after AppendOptions has read the option values",
 			Detail: "EncodeDHCP4 writes the options area (" + norm(target) + ") before AppendOptions has read the option values: a reply encoded in place over the request wipes the values it is about to echo (client identifier, parameter list)"})
 	})
 	if n == 0 {
 		c.R.Add(core.Obligation{Rule: "dhcp-inplace", Key: "dhcp-inplace EncodeDHCP4 writes", Func: core.FuncName(fn), Status: core.Undecided, Detail: "no write into the options area of EncodeDHCP4 was recognised"})
 	}
 }
-
 
 // checkOptionsSent: a packet.DHCP4Options map that a function of the DHCP handler creates and fills must reach a call
 // (the encoder or a sender); a map that is only ever assigned into was meant to be sent and is not (the message
@@ -1276,7 +1272,7 @@ func checkOptionsSent(c *Ctx) {
 			}
 			key := strings.TrimSuffix(kg.Key("options-sent "+core.FuncName(fn)), "#0")
 			c.R.Add(core.Obligation{Rule: "options-sent", Key: key, Func: core.FuncName(fn), Pos: c.P.Pos(mk.Pos()), Status: st,
-				Basis: fmt.Sprintf("%d options assigned; the map reaches a call", filled),
+				Basis:  fmt.Sprintf("%d options assigned; the map reaches a call", filled),
 				Detail: fmt.Sprintf("%s fills a DHCP option map with %d options and never passes it on: the message is sent without them", core.FuncName(fn), filled)})
 		})
 	}
